@@ -82,6 +82,10 @@ KINDS = {
     'GDestroyNotify': (T('GDestroyNotify'), 'callback destroy'),
     'GAsyncReadyCallback': (T('GAsyncReadyCallback'), 'callback async'),
     'GCallback': (T('GCallback'), 'callback'),
+    'FooBarThing*': (T('FooBarThing', 1), 'pointer record'),
+    'FooBarId': (T('FooBarId'), 'basic alias'),
+    'FooBarHandle': (T('FooBarHandle'), 'basic alias chain'),
+    'foreignrec*': (T('FooForeign', 1), 'pointer record'),
     'foreign*': (T('XOther', 1), 'pointer unresolved'),
     'foreign': (T('XOtherVal'), 'unresolved'),
 }
@@ -113,6 +117,10 @@ def fixed_decls(order_seed, with_gobject=True):
     d = []
     d.append({'d': 'typedef', 'name': 'XOther', 'type': ty('_XOther', 'struct'), 'file': None})
     d.append({'d': 'typedef', 'name': 'XOtherVal', 'type': B('int'), 'file': None})
+    # types of the included fixture namespace FooBar (its name extends this namespace's name)
+    d.append({'d': 'typedef', 'name': 'FooBarThing', 'type': ty('_FooBarThing', 'struct'), 'file': None})
+    d.append({'d': 'typedef', 'name': 'FooBarId', 'type': T('guint32'), 'file': None})
+    d.append({'d': 'typedef', 'name': 'FooBarHandle', 'type': T('FooBarId'), 'file': None})
     aliases = [
         {'d': 'typedef', 'name': 'FooAliasInt', 'type': T('gint')},
         {'d': 'typedef', 'name': 'FooAliasVa', 'type': T('va_list')},
@@ -134,6 +142,7 @@ def fixed_decls(order_seed, with_gobject=True):
               'members': [{'name': 'FOO_FLAGS_X', 'value': 1, 'shift': True}, {'name': 'FOO_FLAGS_Y', 'value': 2, 'shift': True}]})
     d.append({'d': 'compound', 'kind': 'struct', 'tag': '_FooRec', 'typedef': 'FooRec', 'fields': None})
     d.append({'d': 'compound', 'kind': 'struct', 'tag': '_FooOpaque', 'typedef': 'FooOpaque', 'fields': None})
+    d.append({'d': 'compound', 'kind': 'struct', 'tag': '_FooForeign', 'typedef': 'FooForeign', 'fields': None})
     d.append({'d': 'compound', 'kind': 'struct', 'tag': '_FooBoxed', 'typedef': 'FooBoxed',
               'fields': [{'name': 'refs', 'type': B('int')}]})
     d.append({'d': 'compound', 'kind': 'struct', 'tag': '_FooSkipped', 'typedef': 'FooSkipped',
@@ -240,7 +249,8 @@ def _annots(draw, names, hostile, is_return=False):
 
 @st.composite
 def _callable(draw, idx, hostile, annotate):
-    shape = draw(st.sampled_from(['function', 'function', 'method-rec', 'method-obj', 'callback', 'ctor', 'vfunc', 'inline']))
+    shape = draw(st.sampled_from(['function', 'function', 'method-rec', 'method-obj', 'callback', 'ctor', 'vfunc', 'inline',
+                                  'method-plural']))
     n = draw(st.integers(0, 5))
     kinds = draw(st.lists(st.sampled_from(KIND_NAMES), min_size=n, max_size=n))
     if draw(st.integers(0, 3)) == 0:
@@ -265,6 +275,8 @@ def _callable(draw, idx, hostile, annotate):
         for nm in names:
             ann[nm] = draw(_annots(names, hostile))
         ann['Returns'] = draw(_annots(names, hostile, True))
+    if annotate and names and ret in ('int*', 'guint8*', 'strv', 'rec**', 'gpointer') and draw(st.integers(0, 2)) == 0:
+        ann['Returns'] = ['(array length=%s)' % names[-1], '(transfer full)']
     ident_ann = []
     if annotate and draw(st.integers(0, 5)) == 0:
         ident_ann.append(draw(st.sampled_from(['(skip)', '(method)', '(constructor)', '(rename-to foo_renamed_%d)' % idx,
@@ -286,6 +298,11 @@ def _callable_decl(c):
     if sh == 'method-rec':
         return 'foo_boxed_act_%d' % i, {'d': 'function', 'name': 'foo_boxed_act_%d' % i, 'ret': ret,
                                         'params': [param('self', T('FooBoxed', 1))] + params}
+    if sh == 'method-plural':
+        # foo_boxeds_x (FooBoxed *self, ...): carries the type's prefix without the separating underscore; the scanner
+        # keeps the function and adds a moved-to method copy for compatibility
+        return 'foo_boxeds_act_%d' % i, {'d': 'function', 'name': 'foo_boxeds_act_%d' % i, 'ret': ret,
+                                         'params': [param('self', T('FooBoxed', 1))] + params}
     if sh == 'method-obj':
         return 'foo_obj_act_%d' % i, {'d': 'function', 'name': 'foo_obj_act_%d' % i, 'ret': ret,
                                       'params': [param('self', T('FooObj', 1))] + params}
@@ -362,6 +379,8 @@ def api(draw, hostile=True, annotate=True, max_callables=6, with_gobject=True):
         # functions that pair with an enumeration as its static functions (declared in non-sorted order)
         decls.append({'d': 'function', 'name': 'foo_kind_to_string', 'ret': B('char', 1, True), 'params': [param('kind', T('FooKind'))]})
         decls.append({'d': 'function', 'name': 'foo_kind_from_string', 'ret': T('FooKind'), 'params': [param('s', B('char', 1, True))]})
+    if annotate:
+        comments.append(['/**\n * FooForeign: (foreign)\n *\n * Managed elsewhere.\n */', '/src/foo.c', 1100])
     if annotate and draw(st.booleans()):
         comments.append(['/**\n * FooSkipped: (skip)\n *\n * Not for bindings.\n */', '/src/foo.c', 1000])
     dump = None
@@ -402,7 +421,7 @@ def api(draw, hostile=True, annotate=True, max_callables=6, with_gobject=True):
                 '</dump>\n' % ('\n'.join(props), '\n'.join(sigs)))
     else:
         dump = ('<?xml version="1.0"?>\n<dump>\n<boxed name="FooBoxed" get-type="foo_boxed_get_type"/>\n</dump>\n')
-    return {'ns': NS, 'includes': ['Gio-2.0'], 'decls': decls, 'comments': comments, 'dump': dump,
+    return {'ns': NS, 'includes': ['Gio-2.0', 'FooBar-1.0'], 'decls': decls, 'comments': comments, 'dump': dump,
             'meta': {'callables': callables, 'rec_fields': rec_fields, 'order_seed': order_seed}}
 
 
